@@ -68,3 +68,14 @@ theorem wlev_unit_eq_lev (xs ys : List α) : wlev 1 1 1 xs ys = lev xs ys := by
 theorem levDP_eq_lev (xs ys : List α) : levDP xs ys = lev xs ys := by
   rw [levDP, wlevDP_eq_wlev, wlev_unit_eq_lev]
 end Prs
+
+namespace Prs
+/-- compiled code evaluates the recursive specifications through the (proved equal) row programme -/
+@[csimp] theorem lev_eq_levDP_csimp : @lev = @levDP := by
+  funext α inst a b
+  exact (levDP_eq_lev a b).symm
+
+@[csimp] theorem wlev_eq_wlevDP_csimp : @wlev = @wlevDP := by
+  funext α inst wi wd ws a b
+  exact (wlevDP_eq_wlev wi wd ws a b).symm
+end Prs
